@@ -603,6 +603,36 @@ fn walk(bytes: &[u8]) -> String {
         let v: Vec<String> = all.iter().take(8).map(|t| pos(&all, tl.get_thread(t.raw.thread_id))).collect();
         if v.is_empty() { "ok".to_string() } else { format!("ok:{}", v.join(":")) }
     });
+    // ---- round 5: get_memory + stack_memory tied to C01/SModel.v: which list get_memory offers (2 = Memory64, 1 = memory list, 0 = none), then per
+    // thread (first eight) where its stack comes from: -2 = read at parse time, i = region i of that list found at start_of_memory_range, -1 = none
+    f.push(format!("TS={}", guard(|| match dump.get_stream::<MinidumpThreadList>() {
+        Ok(tl) => {
+            let kind = match &mem {
+                Some(UnifiedMemoryList::Memory64(_)) => 2,
+                Some(UnifiedMemoryList::Memory(_)) => 1,
+                None => 0,
+            };
+            let regions: Vec<UnifiedMemory> = memref.iter().collect();
+            let same = |a: &UnifiedMemory, b: &UnifiedMemory| match (a, b) {
+                (UnifiedMemory::Memory(x), UnifiedMemory::Memory(y)) => std::ptr::eq(*x, *y),
+                (UnifiedMemory::Memory64(x), UnifiedMemory::Memory64(y)) => std::ptr::eq(*x, *y),
+                _ => false,
+            };
+            let mut v = vec![kind.to_string()];
+            for t in tl.threads.iter().take(8) {
+                v.push(if t.stack_memory(&empty_mem).is_some() {
+                    "-2".to_string()
+                } else {
+                    match t.stack_memory(memref) {
+                        None => "-1".to_string(),
+                        Some(m) => regions.iter().position(|r| same(r, &m)).map(|i| i.to_string()).unwrap_or_else(|| "?".to_string()),
+                    }
+                });
+            }
+            format!("ok:{}", v.join(":"))
+        }
+        Err(e) => err_name(&e),
+    })));
     f.join(";")
 }
 
